@@ -109,7 +109,7 @@ def _agg_case(ctx, cls, check_cls, viol, complete, match, combo):
 
     def thunk(interp):
         insp = interp.call(cls, [])
-        insp.fields['_safety_checks'] = DictV()
+        insp.fields[M.private_names(world)['checks']] = DictV()
         for i, oc in enumerate(combo):
             chk = interp.call(check_cls, [K('c%d' % i), target(i, oc)])
             interp.call(interp.get_attr(insp, 'add_safety_check'), [chk])
